@@ -187,6 +187,17 @@ type shBadPos struct {
 type shUnknownType struct {
 	A string `@Nope`
 }
+type shAnonLeftRec struct {
+	Inner struct {
+		Back *shAnonLeftRec `@@`
+	} `@@`
+	B string `@Ident`
+}
+type shAnonRec struct {
+	Inner struct {
+		Back *shAnonRec `"(" @@? ")"`
+	} `@@`
+}
 type shComplex struct {
 	A complex128 `@Ident`
 }
@@ -216,6 +227,14 @@ func shapeRun(args []string) error {
 	run("struct-scalar", func() error { _, err := participle.Build[shStructScalar](); return err })
 	run("bad-pos", func() error { _, err := participle.Build[shBadPos](); return err })
 	run("unknown-type", func() error { _, err := participle.Build[shUnknownType](); return err })
+	run("anon-leftrec", func() error { _, err := participle.Build[shAnonLeftRec](); return err })
+	run("anon-rec-string", func() error {
+		p, err := participle.Build[shAnonRec]()
+		if err == nil {
+			_ = p.String()
+		}
+		return err
+	})
 	run("complex", func() error { _, err := participle.Build[shComplex](); return err })
 	run("uintptr", func() error { _, err := participle.Build[shUintptr](); return err })
 	return nil
